@@ -145,7 +145,7 @@ def r3(ctx, retsets):
     pdb = ctx.pdb
     ctx.rule("C18.R3", "failure edge, element level: append leaves the node untouched; delete restores the removed element and the length; "
              "node creation releases what it had allocated; validation clears the reasons; all report an error. Table level: see the "
-             "shared rules C18.R6-R9")
+             "shared rules C18.R6-R10")
     E_ = pdb.enum("pfx_rtvals")
     # append
     fn = pdb.fn("pfx_table_append_elem")
@@ -369,6 +369,10 @@ def check(ctx):
                      "C03.R4": ("C18.R9", "synchronisation: shadow tables are released on every path and the live tables stay untouched when their creation fails")}):
         C04.r9(ctx, retsets)
         C03.r2_r3_r4(ctx, retsets)
+    from specs import C06
+    with ctx.shared({"C06.R4": ("C18.R10", "copying the other sockets' records into a shadow table: a record that cannot be added (allocation failure) "
+                                "fails the whole copy - the walk's error flag is a latch that later successful adds do not lower")}):
+        C06.r4(ctx, retsets)
     ctx.not_decided("set semantics after the k-th allocation failure for every k over whole operation histories (C02 composed with R2/R3)")
     ctx.not_decided("allocation behaviour inside OpenSSL / libssh and in the transports (outside the property's anchors)")
 
@@ -402,4 +406,6 @@ WITNESSES = [
      "old": "\tentry = lrtr_malloc(sizeof(*entry));\n\tif (!entry)\n\t\treturn SPKI_ERROR;\n\n\tspki_record_to_key_entry(spki_record, entry);", "new": "\tentry = lrtr_malloc(sizeof(*entry));\n\tspki_record_to_key_entry(spki_record, entry);\n\tif (!entry)\n\t\treturn SPKI_ERROR;\n"},
     {"id": "C18.w11-receive-leaks-ipv6-array-on-error", "rule": "C18.R4", "file": PK,
      "old": "\tlrtr_free(router_key_pdus);\n\tlrtr_free(ipv6_pdus);\n\tlrtr_free(ipv4_pdus);\n\treturn retval;", "new": "\tlrtr_free(router_key_pdus);\n\tif (retval == RTR_SUCCESS)\n\t\tlrtr_free(ipv6_pdus);\n\tlrtr_free(ipv4_pdus);\n\treturn retval;"},
+    {"id": "C18.w12-copy-error-flag-overwritten", "rule": "C18.R10", "file": TP,
+     "old": "\t\tif (pfx_table_add(args->pfx_table, record) != PFX_SUCCESS)\n\t\t\targs->error = true;", "new": "\t\targs->error = pfx_table_add(args->pfx_table, record) != PFX_SUCCESS;"},
 ]
